@@ -133,7 +133,18 @@ def ls4(F, R):
                             dt_ = strip_refs(fn.term_of_rvalue(dd[3], dd[1]) if dd[0] == "assign" else fn.call_term(dd[2], dd[1]))
                             if dt_[0] == "call" and dt_[1] and path_matches(dt_[1], "FatVolume::cluster_to_block"):
                                 x = dt_[2][1]
-                                rs_ = roots(fn, x, stop=lambda n_: path_matches(n_, "FatVolume::next_cluster") or path_matches(n_, "FatVolume::alloc_cluster"))
+                                stop_ = lambda n_: path_matches(n_, "FatVolume::next_cluster") or path_matches(n_, "FatVolume::alloc_cluster")
+                                x0_ = strip_refs(x)
+                                if x0_[0] == "var" and len(fn.defs().get(x0_[1], [])) > 1:
+                                    # the walk's own cursor (set before the loop and again inside it): what it can hold at this point
+                                    # of the loop are the values given to it inside the loop
+                                    rs_ = set()
+                                    for d2 in fn.defs().get(x0_[1], []):
+                                        if d2[0] in ("assign", "call") and d2[1] in loopblocks:
+                                            rs_ |= roots(fn, fn.term_of_rvalue(d2[3], d2[1]) if d2[0] == "assign" else fn.call_term(d2[2], d2[1]), stop=stop_)
+                                else:
+                                    rs_ = roots(fn, x, stop=stop_)
+                                rs_ = rs_ if rs_ else roots(fn, x, stop=stop_)
                                 good_ = bool(rs_) and all(r[0] == "call" and r[1] and (path_matches(r[1], "FatVolume::next_cluster") or path_matches(r[1], "FatVolume::alloc_cluster")) for r in rs_)
                                 if not good_:
                                     problems.append("inside the walk the block-range start is recomputed from %s, which is not (only) the cluster just returned by next_cluster / alloc_cluster" % tstr(x))
@@ -303,6 +314,25 @@ def ls5(F, R):
     rets = [f32.term_of_rvalue(s["rv"], b) for b, i, s in f32.stmts() if s["k"] == "Assign" and s["p"]["l"] == 0 and not s["p"]["proj"]]
     pat = ("agg", "ClusterId", [("bin", "BitOr", ("bin", "Shl", ("call", "From::from", [("call", "first_cluster_hi", "_")]), ("c", 16)), ("call", "From::from", [("call", "first_cluster_lo", "_")]))])
     okp = len(rets) == 1 and tmatch(rets[0], ("agg", "ClusterId", ["$x"])) is not None and "first_cluster_hi" in tstr(rets[0]) and "first_cluster_lo" in tstr(rets[0]) and "Shl" in tstr(rets[0]) and "0x10" in tstr(rets[0])
+    if not okp:
+        # however it is written (`hi * 0x1_0000 + lo`, a helper joining the halves): evaluated on a slot of 32 unknown bytes, the
+        # result's bits are bytes 26..28 (low word) followed by bytes 20..22 (high word)
+        try:
+            from .absint import Interp, State, Undecided
+            from .absval import bits_of, is_agg
+            from .rules_codec import data_struct, le_bits
+            I_ = Interp(F, mode="bv", max_paths=64)
+            st_ = State()
+            self_p, bs_ = data_struct(I_, st_, F, "fat::ondiskdirentry::OnDiskDirEntry", 32, slice_=True)
+            outs_ = I_.run(f32, [self_p], st_, 0)
+            want_ = tuple(le_bits(bs_, 26, 2)) + tuple(le_bits(bs_, 20, 2))
+            def _inner(v_):
+                while is_agg(v_):
+                    v_ = v_[4][0]
+                return v_
+            okp = bool(outs_) and all(tuple(bits_of(_inner(rv_))) == want_ for rv_, _s in outs_)
+        except Exception:
+            okp = False
     R.require(okp, f32, "hi<<16|lo", "first_cluster_fat32 must be (hi << 16) | lo, got %s" % [tstr(r) for r in rets], f32.loc(0))
 
 
